@@ -184,6 +184,10 @@ type Sched struct {
 	starveN   int
 	rootID    int
 	schedGoid uint64
+	// StopAfterMain ends the run as soon as the first task has returned, even if other tasks could still
+	// run (for systems under test that own immortal tickers).
+	StopAfterMain bool
+	mainTask      *Task
 	// hooks
 	OnStep func(s *Sched) // called by the scheduler after every step (invariants); must not hit sim points
 	// failure notes recorded by tasks/invariants
@@ -609,6 +613,7 @@ func Run(cfg Config, main func()) *Result {
 		panic("simrt: nested Run")
 	}
 	mt := s.newTask(nil, "main")
+	s.mainTask = mt
 	s.spawn(mt, main)
 	res := &Result{}
 	raceDisable()
@@ -718,6 +723,10 @@ func (s *Sched) loop(res *Result) {
 		}
 		if s.OnStep != nil {
 			s.OnStep(s)
+		}
+		if s.StopAfterMain && s.mainTask != nil && taskState(s.mainTask.state.Load()) == stDone {
+			res.Quiescent = false
+			return
 		}
 		now := time.Now()
 		if s.runDueEvents(now) {
